@@ -91,8 +91,13 @@ admissible* — full instance columns, the tightest domain, buffers filled
 exactly, proofs ending in zero bytes, non-byte-aligned widths: C03-1, C03-2,
 C17-2, C18-1; (f) *redundant or aliased inputs* — equalities declared twice,
 equal commitments behind distinct references, byte arrays congruent modulo the
-field: C02-2, C14-2, C18-2; (g) *fixture-specific shapes* — decoded keys were
-only ever used with the three fixture relations: C16-1.
+field: C02-2, C14-2, C18-2; (g) *fixture-specific shapes* — decoded keys and
+the in-circuit verifier were only ever used with the three fixture relations:
+C16-1, C20-3; (h) *API surface below the façade* — entry points that the
+standard library never calls in a particular way (the decomposition chip with
+partial limbs, msm terms sharing a base, guards combined by hand, witnessed
+accumulators and their committed-scalar encoding, proving keys without copy
+constraints): C04-3, C06-3, C08-3, C15-3, C17-3, C20-2.
 
 | id | property | change | needs | caught by |
 |----|----------|--------|-------|-----------|
